@@ -243,6 +243,22 @@ def r3_index_refresh(chk):
         chk.decide(ok, "C04.R3", f"{opn.key}:arm-{mode}-maps-blocks", opn.where(c.pattern if c else None),
                    "reads the header and re-maps the blocks (index refreshed under the lock)",
                    f"UKVFile.open mode {mode!r} does not call map_blocks: a session would run on a stale index")
+        if mode == "a" and ok:
+            # the scan of an append-mode open cuts a torn tail off (truncate): the stream it runs on must be open for writing
+            order = [x for s_ in spec for x in walk_no_nested(s_)] if not isinstance(spec, ast.AST) else list(walk_no_nested(spec))
+            last_open, verdict = None, None
+            for x in order:
+                if isinstance(x, ast.Assign) and any(norm(t) == "self._stream" for t in x.targets) and isinstance(x.value, ast.Call) and (call_name(x.value) or "").split(".")[-1] == "open":
+                    a_ = [a for a in x.value.args if isinstance(a, ast.Constant) and isinstance(a.value, str)]
+                    kw_ = [k.value for k in x.value.keywords if k.arg == "mode" and isinstance(k.value, ast.Constant)]
+                    last_open = (a_ + kw_)[-1].value if (a_ + kw_) else "?"
+                if isinstance(x, ast.Call) and (call_name(x) or "") == "self.map_blocks" and verdict is None:
+                    verdict = last_open
+            if verdict is not None and verdict != "?":
+                chk.decide(any(ch in verdict for ch in "+wax"), "C04.R3", f"{opn.key}:arm-a-scans-on-a-writable-stream", opn.where(c.pattern if c else None),
+                           f"map_blocks runs on a stream opened {verdict!r}",
+                           f"in mode 'a' map_blocks runs on a stream opened {verdict!r} (read-only): cutting off a torn tail raises UnsupportedOperation, so after a crash "
+                           "inside an append the file can no longer be opened for appending and the tail is never removed")
     init = prog.func(f"{UKV}:UKVFile.__init__")
     chk.decide(has_call(init.node, {"self.open"}), "C04.R3", f"{init.key}:opens", init.where(), "constructor opens the file",
                "UKVFile.__init__ no longer opens the file")
